@@ -1,4 +1,202 @@
 import SqlObjVerif.Lemmas.Codec
+/-!
+# C01 — stored values read back unchanged; a query for the value finds the row; any other accepted
+value is normalised or rejected, never stored unreadable
+
+Property theorems only.  `readBack T x` = `toPy T (fetch (store (aff T) (lit (toDb T x))))`, where `lit`,
+the strptime formats, the bool / NULL literals, the sqlite quote pair and the declared SQLite column
+types are the constants **extracted** from /repo (`Extracted/Codec.lean`).
+Float, Decimal/Currency, DecimalString, Pickle, JSON, Uuid: the stdlib codecs are uninterpreted tokens;
+for them only the glue is proved (`C01_glue_*`).
+-/
 namespace SqlObjVerif.Codec
-theorem C01_none_lit : lit .none = .ok Extracted.nullLit := rfl
+
+/-! ## round trips over the whole domain -/
+
+/-- StringCol: every NUL-free code-point list (quotes, backslashes, astral, digits-only, …) -/
+theorem C01_roundtrip_String (s : Str) (h0 : 0 ∉ s) : readBack .string (.str s) = .ok (.str s) :=
+  readBack_string s h0
+
+theorem C01_roundtrip_Unicode (s : Str) (h0 : 0 ∉ s) : readBack .unicode (.str s) = .ok (.str s) :=
+  readBack_unicode s h0
+
+/-- IntCol, TinyIntCol, SmallIntCol, MediumIntCol, BigIntCol: all of int64 -/
+theorem C01_roundtrip_IntFamily (T : ColT) (hT : intFamily T) (i : Int) (h : int64 i = true) :
+    readBack T (.int i) = .ok (.int i) :=
+  readBack_int T hT i h
+
+/-- outside int64 the value is accepted and the cell holds a REAL: the double nearest to the integer -/
+theorem C01_IntFamily_outside_int64_stored_as_double (T : ColT) (hT : intFamily T) (i : Int)
+    (h : int64 i = false) :
+    toDb T (.int i) = .ok (.int i) ∧ store (aff T) (reprInt i) = some (.real (.ofInt i)) :=
+  ⟨by rcases hT with rfl | rfl | rfl | rfl | rfl <;> rfl, store_int_outside T hT i h⟩
+
+theorem C01_roundtrip_Bool (b : Bool) : readBack .bool (.bool b) = .ok (.bool b) := readBack_bool b
+
+/-- DateTimeCol and TimestampCol: every calendar-valid datetime, year 1..9999, µs 0..999999 -/
+theorem C01_roundtrip_DateTime (T : ColT) (hT : T = .dateTime ∨ T = .timestamp) (y mo d h mi s us : Nat)
+    (hv : (⟨y, mo, d, h, mi, s, us⟩ : DT).valid = true) :
+    readBack T (.datetime y mo d h mi s us) = .ok (.datetime y mo d h mi s us) :=
+  readBack_dateTime T hT ⟨y, mo, d, h, mi, s, us⟩ hv
+
+theorem C01_roundtrip_Date (y mo d : Nat) (hv : (⟨y, mo, d, 0, 0, 0, 0⟩ : DT).valid = true) :
+    readBack .date (.date y mo d) = .ok (.date y mo d) :=
+  readBack_date y mo d hv
+
+theorem C01_roundtrip_Time (h mi s us : Nat) (hv : (⟨1900, 1, 1, h, mi, s, us⟩ : DT).valid = true) :
+    readBack .time (.time h mi s us) = .ok (.time h mi s us) :=
+  readBack_time h mi s us hv
+
+/-- `format` then `strptime` is the identity on the extracted format strings (the digit arithmetic) -/
+theorem C01_strptime_render_DateTime (v : DT) (hv : v.valid = true) :
+    Extracted.convDateTime.render v = 39 :: (bodyDT v ++ [39]) ∧
+    parseWith Extracted.fmtDateTime (bodyDT v) = some v := by
+  refine ⟨render_dt v, ?_⟩
+  unfold parseWith
+  rw [hasDotF_dt]
+  simp [fixMicro_bodyDT v hv, strptime_bodyDT v hv]
+
+/-- EnumCol: every declared value, whatever characters it has -/
+theorem C01_roundtrip_Enum (vals : List Str) (s : Str) (hs : s ∈ vals) (h0 : 0 ∉ s) :
+    readBack (.enum vals) (.str s) = .ok (.str s) :=
+  readBack_enum vals s hs h0
+
+/-- BLOBCol on SQLite (base64 text): every byte list, the empty one included -/
+theorem C01_roundtrip_BLOB (bs : Str) (hb : ∀ x ∈ bs, x < 256) : readBack .blob (.bytes bs) = .ok (.bytes bs) :=
+  readBack_blob bs hb
+
+theorem C01_base64_decode_encode (bs : Str) (hb : ∀ x ∈ bs, x < 256) : b64dec (b64enc bs) = some bs :=
+  b64dec_enc bs hb
+
+theorem C01_roundtrip_ForeignKey (i : Int) (h : int64 i = true) : readBack .fkInt (.int i) = .ok (.int i) :=
+  readBack_fk i h
+
+/-- None is NULL is None, for every column type -/
+theorem C01_roundtrip_None (T : ColT) : readBack T .none = .ok .none := readBack_none T
+
+example : readBack .string (.str [39, 39, 92, 37, 128512]) = .ok (.str [39, 39, 92, 37, 128512]) :=
+  C01_roundtrip_String _ (by decide)
+example : readBack .timestamp (.datetime 1 1 1 0 0 0 1) = .ok (.datetime 1 1 1 0 0 0 1) :=
+  C01_roundtrip_DateTime _ (Or.inr rfl) _ _ _ _ _ _ _ (by decide)
+example : readBack .date (.date 2024 2 29) = .ok (.date 2024 2 29) := C01_roundtrip_Date _ _ _ (by decide)
+example : readBack .blob (.bytes []) = .ok (.bytes []) := C01_roundtrip_BLOB [] (by simp)
+example : readBack .bigInt (.int (-9223372036854775808)) = .ok (.int (-9223372036854775808)) :=
+  C01_roundtrip_IntFamily _ (Or.inr (Or.inr (Or.inr (Or.inr rfl)))) _ (by decide)
+
+/-! ## the query finds the row -/
+
+/-- `WHERE col = <lit y>`: the literal, converted as SQLite converts an operand compared with a column of
+    this affinity, equals the cell the same literal stored.  (A REAL column holding the double of an integer
+    that is not exactly representable is the excluded case: SQLite compares int and double exactly.) -/
+theorem C01_eq_query_finds (T : ColT) (y : PyVal) (l : Str) (cell : DbVal) (hy : y ≠ .none)
+    (hl : lit y = .ok l) (hs : store (aff T) l = some cell) (hn : cell ≠ .null)
+    (hx : aff T = .real → ∀ i, cell = .real (.ofInt i) → exactInt i = true) :
+    whereFinds T y cell = .ok true :=
+  whereFinds_of_store T y l cell hy hl hs hn hx
+
+/-- None is looked up with `IS NULL` and finds the NULL cell -/
+theorem C01_eq_query_finds_null (T : ColT) : whereFinds T .none .null = .ok true := by
+  simp [whereFinds]
+
+example : whereFinds .string (.str [39]) (.text [39]) = .ok true :=
+  C01_eq_query_finds .string (.str [39]) (quoteStr [39]) (.text [39]) (by simp) rfl
+    (by simp [store, evalLit_quoteStr [39] (by decide), applyAff]; decide) (by simp) (fun h => absurd h (by decide))
+
+/-! ## normalised or rejected, never stored unreadable -/
+
+/-- FULL statement — FALSE of the current code: DateTimeCol accepts a `datetime.date`, stores
+    'YYYY-MM-DD' and cannot read it back. -/
+theorem C01_accepted_readable_full_FALSE :
+    ¬ (∀ (T : ColT) (x y : PyVal), wf x → toDb T x = .ok y → Readable T x y) := by
+  intro h
+  have hv : (⟨2020, 1, 2, 0, 0, 0, 0⟩ : DT).valid = true := by decide
+  obtain ⟨hdb, hrt, hpy⟩ := readBack_dateTime_of_date .dateTime (Or.inl rfl) 2020 1 2 hv
+  rcases h .dateTime (.date 2020 1 2) (.date 2020 1 2) hv hdb with hr | ⟨v, hr, _⟩
+  · rw [hrt] at hr; cases hr
+  · simp [hrt, Res.bind, hpy] at hr
+
+/-- the defect, for EVERY date: accepted, written as the date text, `Invalid` on read -/
+theorem C01_DateTime_given_date_unreadable (T : ColT) (hT : T = .dateTime ∨ T = .timestamp) (y mo d : Nat)
+    (hv : (⟨y, mo, d, 0, 0, 0, 0⟩ : DT).valid = true) : readBack T (.date y mo d) = .invalid := by
+  obtain ⟨hdb, hrt, hpy⟩ := readBack_dateTime_of_date T hT y mo d hv
+  simp [readBack, Res.bind, hdb, hrt, hpy]
+
+/-- PARTIAL: outside the listed (column, value) classes — `knownBad`: date/time given to DateTime/Timestamp,
+    time given to Date, date given to Time, integers beyond int64 given to an integer-like column, integers
+    that are not exact doubles given to Float; `outsideFragment`: uninterpreted codecs — every value a column
+    accepts is rejected by the statement or read back as a value that equals it or is its documented coercion. -/
+theorem C01_accepted_readable_partial (T : ColT) (x y : PyVal) (hw : wf x)
+    (hf : outsideFragment T x = false) (hk : knownBad T x = false) (h : toDb T x = .ok y) :
+    Readable T x y := by
+  cases T with
+  | string => exact accepted_string x y hw h
+  | unicode => exact accepted_unicode x y hw h
+  | int => exact accepted_int _ (Or.inl rfl) x y hk h
+  | tinyInt => exact accepted_int _ (Or.inr (Or.inl rfl)) x y hk h
+  | smallInt => exact accepted_int _ (Or.inr (Or.inr (Or.inl rfl))) x y hk h
+  | mediumInt => exact accepted_int _ (Or.inr (Or.inr (Or.inr (Or.inl rfl)))) x y hk h
+  | bigInt => exact accepted_int _ (Or.inr (Or.inr (Or.inr (Or.inr rfl)))) x y hk h
+  | bool => exact accepted_bool x y h
+  | float => exact accepted_float x y hf hk h
+  | dateTime => exact accepted_dateTime _ (Or.inl rfl) x y hw hk h
+  | timestamp => exact accepted_dateTime _ (Or.inr rfl) x y hw hk h
+  | date => exact accepted_date x y hw hf hk h
+  | time => exact accepted_time x y hw hf hk h
+  | decimal => exact accepted_decimal _ (Or.inl rfl) x y hf hk h
+  | currency => exact accepted_decimal _ (Or.inr rfl) x y hf hk h
+  | decimalString => exact accepted_decimalString x y hw h
+  | enum vals => exact accepted_enum vals x y hw h
+  | blob => exact accepted_blob x y hw h
+  | pickle => exact accepted_pickle x y hw h
+  | uuid => exact accepted_uuid x y hw h
+  | json => exact accepted_json x y hw h
+  | fkInt => exact accepted_fk x y hk h
+
+/-- non-vacuity: a datetime given to a DateCol is accepted and normalised to its date -/
+example : Readable .date (.datetime 2020 1 2 3 4 5 6) (.date 2020 1 2) :=
+  C01_accepted_readable_partial .date _ _ (by show DT.valid _ = true; decide) rfl rfl (by simp [toDb, dateToPython])
+example : knownBad .dateTime (.date 2020 1 2) = true := rfl
+example : knownBad .date (.datetime 2020 1 2 3 4 5 6) = false := rfl
+
+/-- the value the writer caches (`to_python(from_python(x))`) is NOT always what a fresh reader gets:
+    `obj.fkID = <SQLObject instance>` caches the instance, the row holds (and a fresh read gives) its id. -/
+theorem C01_writer_cache_eq_fresh_full_FALSE :
+    ¬ (∀ (T : ColT) (x w v : PyVal), wf x → writerCache T x = .ok w → readBack T x = .ok v → pyEq w v = true) := by
+  intro h
+  have hw : writerCache .fkInt (.sqlobj 1) = .ok (.sqlobj 1) := by
+    simp [writerCache, toDb, toPy, fkFromPython, Res.bind]
+  have hr : readBack .fkInt (.sqlobj 1) = .ok (.int 1) := by
+    have ha : aff .fkInt = .integer := by decide
+    have h64 : int64 1 = true := by decide
+    simp [readBack, toDb, toPy, fkFromPython, Res.bind, roundtrip, lit, evalLit_reprInt, h64, ha, applyAff, fetch]
+  have := h .fkInt (.sqlobj 1) _ _ trivial hw hr
+  simp [pyEq] at this
+
+/-! ## glue for the uninterpreted codecs -/
+
+/-- DecimalStringCol / UuidCol / JSONCol: the codec's text passes through the literal quoting, the TEXT
+    column and the driver unaltered, whatever it contains (NUL-free) -/
+theorem C01_glue_text_codec (T : ColT) (hT : T = .decimalString ∨ T = .uuid ∨ T = .json) (t : Str) (h0 : 0 ∉ t) :
+    roundtrip T (.str t) = .ok (.str t) :=
+  roundtrip_text T t (by rcases hT with rfl | rfl | rfl <;> decide) h0
+
+theorem C01_glue_text_codec_branches (t : Str) :
+    toDb .decimalString (.decimal t) = .ok (.str t) ∧ toPy .decimalString (.str t) = .ok (.decimal t) ∧
+    toDb .uuid (.uuid t) = .ok (.str t) ∧ toPy .uuid (.str t) = .ok (.uuid t) ∧
+    toDb .json (.json t) = .ok (.str t) ∧ toPy .json (.str t) = .ok (.json t) := by
+  simp [toDb, toPy, stringV]
+
+/-- PickleCol: the pickle bytes (whatever `pickle.dumps` produced) come back byte for byte -/
+theorem C01_glue_Pickle (bs : Str) (hb : ∀ x ∈ bs, x < 256) : readBack .pickle (.pickled bs) = .ok (.pickled bs) :=
+  readBack_pickle bs hb
+
+/-- FloatCol / DecimalCol / CurrencyCol: the value is passed unchanged to `sqlrepr`, whose text is exactly the
+    codec's text (`repr(float)`, `to_eng_string()`), unquoted; a float read from the cell is returned as is -/
+theorem C01_glue_Float_Decimal (t : Str) :
+    toDb .float (.float (.lit t)) = .ok (.float (.lit t)) ∧ lit (.float (.lit t)) = .ok t ∧
+    toPy .float (.float (.lit t)) = .ok (.float (.lit t)) ∧
+    toDb .decimal (.decimal t) = .ok (.decimal t) ∧ toDb .currency (.decimal t) = .ok (.decimal t) ∧
+    lit (.decimal t) = .ok t := by
+  simp [toDb, toPy, floatV, lit]
+
 end SqlObjVerif.Codec
